@@ -36,7 +36,7 @@ type sqCase struct {
 func (c *Ctx) genSquareCase(maxChoices []int) sqCase {
 	sc := sqCase{}
 	sc.max = c.rng.Pick(maxChoices)
-	sc.thr = c.rng.Pick([]int{1, 2, 3, 5, 8, 63, 64, 65, 128})
+	sc.thr = c.rng.Pick([]int{1, 1, 2, 3, 5, 8, 63, 64, 65, 128, 1 << 20, 1<<31 - 1}) // incl. thresholds larger than any blob
 	capShares := sc.max * sc.max
 	pool := c.userNamespaces(c.rng.Range(1, 4))
 	k := c.rng.Range(0, 12)
@@ -57,6 +57,9 @@ func (c *Ctx) genSquareCase(maxChoices []int) sqCase {
 			}
 			if n > 60000 {
 				n = 60000
+			}
+			if capShares >= 256 && c.rng.Chance(1, 25) {
+				n = c.rng.Pick([]int{255, 256, 65535, 65536, 65537}) // single values guards tend to get wrong
 			}
 			sc.txs = append(sc.txs, genTx{raw: c.normalTx(n)})
 			d = append(d, fmt.Sprintf("t%d", n))
@@ -79,6 +82,8 @@ func (c *Ctx) genSquareCase(maxChoices []int) sqCase {
 			n := c.sparseLen(maxSh)
 			if manyEqual {
 				n = c.rng.Range(1, 600)
+			} else if capShares >= 256 && c.rng.Chance(1, 25) {
+				n = c.rng.Pick([]int{255, 256, 65535, 65536, 65537})
 			}
 			ns := pool[c.rng.Intn(len(pool))]
 			if kf1 && c.rng.Chance(1, 3) {
